@@ -15,15 +15,15 @@ CLAIMS = {
               '(from AST), loader and VM tied to the real Parser/Loader/Machine on the same scripts (correspondences A, B, C). '
               'Theorems proved so far: group/location action = the single-light action on each member in name order (all '
               'populations, all registers); members of a group are exactly the lights reporting it; operands joined by `and` '
-              'share one delay. Forward simulation (Lang/Simulation.v, Simulation2.v) is proved for every LOOP-FREE, CALL-FREE program: scripts made of register '
+              'share one delay. Forward simulation (Lang/Simulation.v, Simulation2.v) is proved for every program made of register '
               'settings, unit switches, assignments, print / println, wait, set / on / off of all lights or lists of lights, groups and '
-              'locations, if / else nested to any depth and begin-end blocks -- values any ordinary rvalue or call-free numeric expression of any size -- and every population: if the reference '
+              'locations, if / else, begin-end blocks and `repeat while` loops nested to any depth -- values any ordinary rvalue or call-free numeric expression of any size -- and every population: WHENEVER the reference '
               'semantics runs the source to its end with events evs, the code of the compiler model, loaded and run on the machine model '
-              'from the initial state, finishes with exactly evs (and statement by statement for code anywhere in an image). For '
-              'loops, routines, zones and matrix blocks the agreement of reference semantics, compiler, loader and machine models with each '
+              'from the initial state, finishes with exactly evs (and statement by statement for code anywhere in an image, inside any enclosing loops). For '
+              'the other loop forms, break, routines, zones and matrix blocks the agreement of reference semantics, compiler, loader and machine models with each '
               'other and with the implementation is established per run by the oracle and correspondence comparisons, i.e. by testing, over '
               '~400 (quick) / ~6000 (thorough) scripts.'),
-        note=COMMON_NOTE + 'Partial: the simulation theorem covers loop-free, call-free programs only; arithmetic outside the modelled range (libm, rgb, ints beyond 2^53 with floats) is skipped and counted; device layer = repository fakes.',
+        note=COMMON_NOTE + 'Partial: the simulation theorem covers call-free programs with if / else and `repeat while` loops (no break) only; arithmetic outside the modelled range (libm, rgb, ints beyond 2^53 with floats) is skipped and counted; device layer = repository fakes.',
         technique='Coq reference semantics + machine/compiler models; lemmas by induction; oracle and correspondence by vm_compute evaluation of generated cases',
         design='DESIGN.md 7 C01'),
     'C05': dict(
